@@ -599,7 +599,7 @@ pub fn generate(rng: &mut Rng, n: usize, tier: &str) -> Vec<Value> {
         let caps = caps_json(depth, false, false);
         let base = json!({"t": "FaceModify", "reset": false, "fg": null, "bg": null, "underline": null, "ucolor": null,
                           "bold": null, "italic": null, "blink": null, "strike": null});
-        let mut push = |key: &str, val: Value, v: &mut Vec<Value>| {
+        let push = |key: &str, val: Value, v: &mut Vec<Value>| {
             let mut c = base.clone();
             c[key] = val;
             v.push(json!({"caps": caps, "cmd": c}));
